@@ -546,10 +546,11 @@ func planDecCase(ctx *Ctx, s *schema.Schema, tg planTarget, b []byte, origin str
 		ctx.Res.Violate(report.Violation{Property: "C02", Oracle: "no-over-read", Key: "plan:reads-beyond-input", Detail: "result depends on bytes beyond the input", Line: line})
 	}
 	// only an ACCEPTED input is C18-relevant: a decoder that rejects more than the model does leaves every fixed
-	// point alone (the disagreement is then C02's to explain)
+	// point alone (the disagreement is then C02's to explain); an ACCEPTED decode also carries the dynamic type of
+	// every interface value (rendered dyn ids): a difference with the model there breaks the tie C06 relies on
 	props := "C02"
 	if back != nil {
-		props = "C02,C18"
+		props = "C02,C18,C06"
 	}
 	ctx.Add(line, impl, true, props)
 	ctx.Res.Count("plan.dec." + origin + "." + strings.SplitN(impl, " ", 2)[0])
